@@ -55,7 +55,7 @@ def run(prop, mod, build, tier, seed, t0):
     changed = build.changed_gen()
 
     # --- proofs
-    expected = json.load(open(os.path.join(vlib.COQ_SRC, "Props", "EXPECTED.json"))).get(prop, [])
+    expected = json.load(open(os.path.join(vlib.COQ_SRC, "Props", f"{prop}.expected.json")))
     props_file = f"Props/{prop}.v"
     ok, assumptions, out = build.compile_props(props_file, timeout=1500 if tier == "quick" else 3000)
     src = os.path.join(build.dir, props_file)
